@@ -312,7 +312,12 @@ def run(ctx):
         sim.add(m=1.0)
         f0 = (-rng.uniform(0.5, 0.9 * math.acos(-1.0 / e)) if hyper else rng.uniform(0, 6.28))
         if edge: f0 = rng.uniform(-0.6, 0.6)        # incoming and outgoing (at / past pericentre)
-        sim.add(m=rng.choice([0.0, 1e-3]), a=a, e=e, f=f0,
+        # a massive secondary in democratic-heliocentric / barycentric coordinates is NOT a pure Kepler problem (jump and
+        # interaction terms of size m1/m0): at a pericentre distance of 1e-3 and steps of 50 those kicks amplify rounding
+        # without bound, so the edge family uses a massless secondary there (as C03 does for the same coordinates)
+        m1 = rng.choice([0.0, 1e-3])
+        if edge and integ == "whfast" and opt["coordinates"] in ("democraticheliocentric", "barycentric"): m1 = 0.0
+        sim.add(m=m1, a=a, e=e, f=f0,
                 omega=rng.uniform(0, 6), Omega=rng.uniform(0, 6), inc=rng.uniform(0, 1))
         sim.move_to_com()
         sim.integrator = integ
